@@ -1,0 +1,12 @@
+//go:build verif
+
+package syncer
+
+// VerifYield is called at the yield points when built with the 'verif' tag.
+var VerifYield func(point string)
+
+func verifYield(point string) {
+	if VerifYield != nil {
+		VerifYield(point)
+	}
+}
